@@ -791,7 +791,9 @@ def run(pid, tier, seed, extra=None):
                 if (getattr(con, "domain", "graph") == "graph+expr" or not getattr(con, "finite_ok", True)) and not hasattr(con, "sample_args"):
                     continue      # records mixing graphs and expressions: the property-level bounded part covers these functions
                 if getattr(con, "domain", "graph") in ("expr", "graph+expr"):
-                    deep = con.qual in undecided_funcs or con.qual in rep.bounded_only
+                    # `wide_runtime`: a proved method that subclasses may override (dynamic dispatch) or whose string / iterable
+                    # argument forms are outside the proof keeps the large sampled cross-check through the public call
+                    deep = con.qual in undecided_funcs or con.qual in rep.bounded_only or getattr(con, "wide_runtime", False)
                     n = (4000 if deep else 150) if tier == "quick" else (40000 if deep else 3000)
                     st = expr_sweep(con, n, seed)
                     if deep:
